@@ -105,6 +105,23 @@ pub(crate) fn validate_submit(
             resource_rqs,
         } => {
             if let Some(job) = job {
+                // A dependency on a task of this job that has already failed or was canceled can
+                // never be satisfied: the new task must not run, so the submit is refused (the
+                // dependency used to be dropped silently and the task was started)
+                for task in tasks {
+                    for dep_id in &task.task_deps {
+                        if let Some(dep) = job.tasks.get(dep_id)
+                            && matches!(
+                                dep.state,
+                                JobTaskState::Failed { .. }
+                                    | JobTaskState::Canceled { .. }
+                                    | JobTaskState::Aborted { .. }
+                            )
+                        {
+                            return Some(SubmitResponse::InvalidDependencies(*dep_id));
+                        }
+                    }
+                }
                 for task in tasks {
                     if job.tasks.contains_key(&task.id) {
                         let id = task.id;
